@@ -43,7 +43,10 @@ Definition run10 (f : forest) : sx :=
       L (map (fun oc => match oc with None => A (-1)%Z | Some c => obs_pairs cs c end) ocs);
       sx_nat (tree_height f);
       L [ sx_nodes (tr_children f); sx_on (tr_first_child f); sx_on (tr_last_child f); sx_nat (tr_count f);
-          sx_nat (tr_count_desc f false); sx_nat (tr_count_desc f true) ] ].
+          sx_nat (tr_count_desc f false); sx_nat (tr_count_desc f true) ];
+      (* cross-tree pair queries against a twin tree with the same node_ids: nodes of different trees are never
+         related, so the list of (a, b, query) answers other than False / None is empty *)
+      L [] ].
 
 (* ---- C15 ---- *)
 Definition obs_typed_ch (t : rt) (k : option text) : sx :=
